@@ -80,7 +80,22 @@ def exhaustive(tier):
             yield {"q": q, "auto": False, "mlf": None, "hash": "default", "tops": [0, 0, 0, 1, 2, 3, 4, 255], "lows": [1, 2, 3, 255, 256],
                    "pool": [], "ops": ops, "light": True}
 
-    return [("q3_orders<=%d_of_16_x_removal+full_tables" % K, gen), ("storage_type_codes_q16_q24", big)]
+    def full_big():
+        # completely full tables beyond 256 slots (quotient 9, thorough also 10), one cluster wrapping the whole table with its head
+        # at a chosen slot; then the head (or another element) is removed and re-added.  Slot numbers above 256 matter to code that
+        # compares indices by identity or stores them in a byte.
+        for q in ((9,) if tier == "quick" else (9, 10)):
+            size = 1 << q
+            r = 32 - q
+            for head in (300 % size, size - 1, 257, 5):
+                ops = [["raw_add", (head << r) | 1], ["raw_add", (head << r) | 2]]
+                ops += [["raw_add", (j << r) | 1] for j in range(size) if j not in (head, (head - 1) % size)]
+                for victim in ((head << r) | 1, (((head + 7) % size) << r) | 1):
+                    yield {"q": q, "auto": False, "mlf": None, "hash": "default", "tops": [0, 1, 2, 3], "lows": [1, 2, 3], "pool": [],
+                           "ops": ops + [["raw_remove", victim], ["raw_add", victim]], "verify_every": 128}
+
+    return [("q3_orders<=%d_of_16_x_removal+full_tables" % K, gen), ("storage_type_codes_q16_q24", big),
+            ("full_single_cluster_tables_q9_q10", full_big)]
 
 
 def run_case(case, ctx):
